@@ -2,6 +2,7 @@
 MODULES = [
     "c01_single",
     "c01_compound",
+    "c02_single",
     "c15_tables",
     "c16_bins",
 ]
